@@ -108,6 +108,11 @@ impl<'a, 'b> B<'a, 'b> {
         self.next_line_start = false;
         idx
     }
+    /// A word whose kind (keyword or identifier) is whatever the reference scanner says.
+    fn word(&mut self, s: &str) -> u32 {
+        let k = crate::model::refscan::scan(s)[0].kind;
+        self.push(s, k)
+    }
     fn kw(&mut self, s: &str) -> u32 {
         self.push(s, Kind::Keyword)
     }
@@ -999,7 +1004,50 @@ impl<'a, 'b> B<'a, 'b> {
     }
 
     fn type_ref(&mut self) {
-        match self.t.weighted(&[10, 2, 2, 2, 1, 1]) {
+        match self.t.weighted(&if self.opts.simple { [10, 2, 2, 2, 1, 1, 0, 0, 0, 0] } else { [10, 2, 2, 2, 1, 1, 1, 1, 1, 1] }) {
+            6 => {
+                self.tag("packed-type");
+                self.kw("packed");
+                self.kw("array");
+                self.op("[");
+                self.number();
+                self.op("..");
+                self.number();
+                if self.t.chance(1, 3) {
+                    self.op(",");
+                    self.named("Boolean");
+                }
+                self.op("]");
+                self.kw("of");
+                self.type_name();
+            }
+            7 => {
+                self.tag("short-string");
+                self.kw("string");
+                self.op("[");
+                self.number();
+                self.op("]");
+            }
+            8 => {
+                self.tag("file-of");
+                self.kw("file");
+                if self.t.chance(2, 3) {
+                    self.kw("of");
+                    self.type_name();
+                }
+            }
+            9 if self.opts.generics => {
+                self.tag("nested-generic");
+                self.named("TDict");
+                self.op("<");
+                self.type_name();
+                self.op(",");
+                self.named("TList");
+                self.op("<");
+                self.type_name();
+                self.op(">");
+                self.op(">");
+            }
             0 => self.type_name(),
             1 => {
                 self.kw("array");
@@ -1207,14 +1255,20 @@ impl<'a, 'b> B<'a, 'b> {
             };
             self.depth += 1;
             let m = self.t.below(4);
-            for _ in 0..m {
+            for mi in 0..m {
                 self.nl();
                 if self.t.chance(1, 10) {
                     self.attribute();
                     self.nl();
                 }
                 let first = self.p.toks.len() as u32;
-                match self.t.below(4) {
+                let mut pick = self.t.below(if self.opts.simple { 4 } else { 9 });
+                // `class var` opens a section that takes the plain fields after it: only as the
+                // last member of its visibility section
+                if pick == 6 && mi + 1 != m {
+                    pick = 0;
+                }
+                match pick {
                     0 | 1 => {
                         self.fresh("F");
                         self.op(":");
@@ -1222,6 +1276,82 @@ impl<'a, 'b> B<'a, 'b> {
                         self.op(";");
                     }
                     2 => self.method_header(true),
+                    4 => {
+                        // class operator
+                        self.tag("class-operator");
+                        self.kw("class");
+                        self.word("operator");
+                        let o = *self.t.pick(&["Add", "Implicit", "Equal", "Negative"]);
+                        self.named(o);
+                        self.op("(");
+                        self.kw("const");
+                        self.named("A");
+                        if o == "Add" || o == "Equal" {
+                            self.op(",");
+                            self.named("B");
+                        }
+                        self.op(":");
+                        self.named("TFoo");
+                        self.op(")");
+                        self.op(":");
+                        self.type_name();
+                        self.op(";");
+                    }
+                    5 => {
+                        // class constructor / destructor
+                        self.tag("class-ctor");
+                        self.kw("class");
+                        let c = self.t.chance(1, 2);
+                        self.kw(if c { "constructor" } else { "destructor" });
+                        self.named(if c { "Create" } else { "Destroy" });
+                        self.op(";");
+                    }
+                    6 => {
+                        // class var / class property
+                        self.tag("class-var");
+                        self.kw("class");
+                        if self.t.chance(1, 2) {
+                            self.kw("var");
+                            self.fresh("F");
+                            self.op(":");
+                            self.type_name();
+                            self.op(";");
+                        } else {
+                            self.kw("property");
+                            self.fresh("P");
+                            self.op(":");
+                            self.type_name();
+                            self.word("read");
+                            self.fresh("F");
+                            self.op(";");
+                        }
+                    }
+                    7 => {
+                        // message handler
+                        self.tag("message-method");
+                        self.kw("procedure");
+                        self.fresh("WM");
+                        self.op("(");
+                        self.kw("var");
+                        self.named("Msg");
+                        self.op(":");
+                        self.named("TMessage");
+                        self.op(")");
+                        self.op(";");
+                        self.word("message");
+                        self.named("WM_PAINT");
+                        self.op(";");
+                    }
+                    8 => {
+                        // method with a portability hint
+                        self.tag("hint-directive");
+                        self.kw("procedure");
+                        self.fresh("M");
+                        self.op(";");
+                        let h = *self.t.pick(&["platform", "experimental", "deprecated"]);
+                        self.word(h);
+                        self.op(";");
+                    }
                     _ => {
                         self.tag("property");
                         self.kw("property");
